@@ -209,6 +209,7 @@ func (vc *FnVC) call(c ssa.CallInstruction, val *ssa.Call) {
 		// callee contract: check requires, havoc frame, assume ensures
 		vc.emit(fmt.Sprintf("; call %s#%d by contract", name, ord))
 		penv := vc.newEnv(pre, pre)
+		penv.useParams = false
 		penv.cf = vc.w.contracts[ct.PkgPath()]
 		penv.pkg = vc.w.typesPkg(ct.PkgPath())
 		vc.bindParams(penv, callee, cc, ct, args)
@@ -233,6 +234,7 @@ func (vc *FnVC) call(c ssa.CallInstruction, val *ssa.Call) {
 		}
 		freshResults()
 		qenv := vc.newEnv(post, pre)
+		qenv.useParams = false
 		qenv.cf, qenv.pkg = penv.cf, penv.pkg
 		vc.bindParams(qenv, callee, cc, ct, args)
 		for k, v := range penv.names {
@@ -330,10 +332,18 @@ func (vc *FnVC) siteAsserts(name string, ord int, pre *Mem, args []TV, pos token
 	if vc.ct == nil {
 		return
 	}
+	total := 0
+	for _, ca := range vc.ct.CallAssert {
+		if ca.Callee == name && (ca.Ordinal == 0 || ca.Ordinal == ord) {
+			total++
+		}
+	}
+	j := 0
 	for _, ca := range vc.ct.CallAssert {
 		if ca.Callee != name || (ca.Ordinal != 0 && ca.Ordinal != ord) {
 			continue
 		}
+		j++
 		vc.matchedSites["assert "+ca.Callee] = true
 		env := vc.newEnv(pre, vc.mem0)
 		env.resolve = vc.blockResolver(vc.curBlock, pre)
@@ -344,7 +354,11 @@ func (vc *FnVC) siteAsserts(name string, ord int, pre *Mem, args []TV, pos token
 		if err != nil {
 			panic(unsupported{fmt.Sprintf("call %s assert: %v", name, err)})
 		}
-		vc.oblige("assert", fmt.Sprintf("assert@%s#%d", name, ord), vc.b(), tv.t, pos, ca.C.Text)
+		oname := fmt.Sprintf("assert@%s#%d", name, ord)
+		if total > 1 {
+			oname = fmt.Sprintf("assert@%s#%d.%d", name, ord, j)
+		}
+		vc.oblige("assert", oname, vc.b(), tv.t, pos, ca.C.Text)
 		vc.assume(vc.b(), tv.t)
 	}
 }
